@@ -310,6 +310,14 @@ func c07Run(c batchCase) (out Outcome) {
 	retryRound := false
 	for i, op := range c.Batch {
 		r := obs.results[i]
+		if op.Kind == "badget" {
+			// a call that cannot be serialised: an error of its own, and nothing of it on any wire
+			if r.Error == nil {
+				return viol("result-bad-call-succeeded", "result %d: a Get without a row reports success", i)
+			}
+			anyErr = true
+			continue
+		}
 		final, retryables, _ := finalOutcome(c.Scripts[op.Marker])
 		if retryables > 0 {
 			retryRound = true
@@ -446,6 +454,17 @@ func c07Gen(t *rapid.T) batchCase {
 	for i := 0; i < nb; i++ {
 		c.Batch = append(c.Batch, genOp(t, c.Layout, []string{"get", "get", "put", "app", "inc"}, &n))
 	}
+	badCall := -1
+	if rapid.IntRange(0, 5).Draw(t, "badcall") == 0 {
+		badCall = rapid.IntRange(0, len(c.Batch)-1).Draw(t, "badidx")
+	}
+	defer func() {
+		// (applied last: the scripts and modes below are drawn as for an ordinary batch)
+		if badCall >= 0 && badCall < len(c.Batch) {
+			c.Batch[badCall].Kind = "badget"
+			delete(c.Scripts, c.Batch[badCall].Marker)
+		}
+	}()
 	c.Scripts = genScripts(t, c.Batch, true)
 	c.CancelAtMS = -1
 	switch rapid.IntRange(0, 6).Draw(t, "mode") {
